@@ -117,7 +117,7 @@ impl Property for C06 {
         "C06"
     }
     fn rule(&self) -> String {
-        "histories of 3-14 operations on a persistent store with 2 documents (imports, remote inserts incl. pruning deletion markers, removal, peers, policies, explicit flush, reads through tables()/snapshot_owned()/snapshot()) with the age-based automatic commit forced at 0-3 chosen store accesses (every access index of every operation in the thorough tier); after every operation the database file is copied without commit and reopened; non-trivial = an automatic commit fell inside or between operations that had modified the store, or a flush/commit was followed by further modifications; distinct = distinct operation lists".into()
+        "histories of 3-14 operations on a persistent store with 2 documents (imports, remote inserts incl. pruning deletion markers, in an eighth of the cases an insert that prunes 16-24 entries at once, removal, peers, policies, explicit flush, reads through tables()/snapshot_owned()/snapshot()) with the age-based automatic commit forced at 0-3 chosen store accesses (every access index of every operation in the thorough tier); after every operation the database file is copied without commit and reopened; non-trivial = an automatic commit fell inside or between operations that had modified the store, or a flush/commit was followed by further modifications; distinct = distinct operation lists".into()
     }
     fn corpus(&self) -> Vec<(String, Vec<Op>)> {
         let put = |k: &[u8], c: Option<usize>, ts: u64| Op::Put { n: 0, a: 0, key: k.to_vec(), c, ts };
@@ -145,6 +145,17 @@ impl Property for C06 {
         ops.push(Op::Import { n: 0, write: true });
         if rng.chance(2, 3) {
             ops.push(Op::Import { n: 1, write: rng.chance(1, 2) });
+        }
+        if rng.chance(1, 8) {
+            // one insert that prunes many entries: 16-24 entries below a common prefix, then the prefix
+            let a = rng.below(3);
+            for i in 0..rng.range(16, 24) {
+                ops.push(Op::Put { n: 0, a, key: vec![0x61, i as u8], c: Some(i % 3), ts: 5 });
+            }
+            if rng.chance(1, 2) {
+                ops.push(Op::Flush);
+            }
+            ops.push(Op::Put { n: 0, a, key: vec![0x61], c: if rng.chance(1, 2) { None } else { Some(0) }, ts: 10 });
         }
         for _ in 0..n_ops {
             let n = if rng.chance(3, 4) { 0 } else { 1 };
